@@ -36,7 +36,7 @@ UtilOps == << [op |-> "linear_cg", roles |-> <<"rhs", "guess">>], [op |-> "linea
               [op |-> "contour_integral_quad", roles |-> <<"rhs">>] >>
 Lay == <<"contig", "expanded", "transposed", "slice">>
 Cls == <<"Dense", "Diag", "Toeplitz", "Chol", "Kron", "KronAddedDiag", "AddedDiag", "LRRAddedDiag", "BlockDiag", "BatchRepeat", "Sum",
-         "ConstMul", "Root", "Interp", "PsdSum", "Identity", "KronDiag", "LRRAddedDiagI", "AddedDiagI", "SumI", "ConstDiag", "ConstMulI", "BlockDiagConstMulI", "AddedDiagRootI", "AddedDiagKronI">>
+         "ConstMul", "Root", "Interp", "PsdSum", "Identity", "KronDiag", "LRRAddedDiagI", "AddedDiagI", "SumI", "ConstDiag", "ConstMulI", "BlockDiagConstMulI", "AddedDiagRootI", "AddedDiagKronI", "CatICols", "CatIRows">>
 Batches == << <<>>, <<2>> >>
 
 VARIABLES case, ver, done
